@@ -122,37 +122,39 @@ def rule_r3(ctx):
             ctx.r.ok(rid, "pull after the flush attempt is unconditional", f.loc(pn.ast))
             return
         e = owner.test
-        atoms = bool_atoms(e)
-        a_exc = [a for a in atoms if a == exc]
-        a_fl = [a for a in atoms if a == flushed]
-        a_rem = [a for a in atoms if "total_outbufs_len" in a]
-        miss = []
-        if not a_exc:
-            miss.append("flush raised")
-        if not a_fl:
-            miss.append("nothing sent")
-        if not a_rem:
-            miss.append("output remains")
+        # evaluated as a formula: flags {F,T}, pending and send_bytes in 0..3.  The wake-up is needed whenever the flush
+        # raised, sent nothing, or left at least send_bytes pending (handle_write flushes at >= send_bytes)
+        from .common import formula_eval, formula_leaves
+        leaves = formula_leaves(e)
+        role = {}
+        for t in leaves:
+            role[t] = "exc" if t == exc else "flushed" if t == flushed else "total" if t.endswith("total_outbufs_len") else "send_bytes" if t.endswith("send_bytes") else "other"
+        miss = [what for (r, what) in (("exc", "flush raised"), ("flushed", "nothing sent"), ("total", "output remains")) if r not in role.values()]
+        dom = {t: ((0, 1, 2, 3) if role[t] in ("total", "send_bytes") else (False, True)) for t in leaves}
         bad = None
-        for vals in itertools.product([False, True], repeat=len(atoms)):
-            asg = dict(zip(atoms, vals))
-            need = (a_exc and asg[a_exc[0]]) or (a_fl and not asg[a_fl[0]]) or (a_rem and asg[a_rem[0]])
-            if need and not bool_eval(e, asg):
-                bad = asg
-                break
+        strict = None
+        for vals in itertools.product(*[dom[t] for t in leaves]):
+            env = dict(zip(leaves, vals))
+            r = {role[t]: env[t] for t in leaves}
+            try:
+                v = bool(formula_eval(e, env))
+            except (KeyError, TypeError) as ex:
+                raise AnalysisError("cannot evaluate write_soon's wake-up guard: %s" % ex)
+            need = bool(r.get("exc")) or (("flushed" in r) and not r["flushed"]) or ("total" in r and "send_bytes" in r and r["total"] >= r["send_bytes"])
+            if need and not v:
+                if "total" in r and "send_bytes" in r and r["total"] == r["send_bytes"] and not r.get("exc") and r.get("flushed", True):
+                    strict = env
+                else:
+                    bad = env
         if miss or bad:
             ctx.r.violation(rid, key_of(f, None, "pull-guard-weak"),
                             "write_soon's wake-up guard %s misses: %s" % (norm(e), ", ".join(miss) if miss else "assignment %s" % bad), f.loc(owner))
         else:
             ctx.r.ok(rid, "wake-up guard %s covers: flush raised, nothing sent, output remains" % norm(e), f.loc(owner))
-        # the remaining-output comparison must include equality with send_bytes
-        for a in a_rem:
-            c = ast.parse(a, mode="eval").body
-            if isinstance(c, ast.Compare) and isinstance(c.ops[0], (ast.GtE, ast.Gt)) and "send_bytes" in a:
-                if isinstance(c.ops[0], ast.Gt):
-                    ctx.r.violation(rid, key_of(f, None, "pull-remain-strict"), "wake-up uses > send_bytes where handle_write flushes at >= send_bytes: exactly send_bytes pending is never flushed", f.loc(owner))
-                else:
-                    ctx.r.ok(rid, "remaining-output test agrees with handle_write's >= send_bytes", f.loc(owner))
+        if strict is not None and not bad:
+            ctx.r.violation(rid, key_of(f, None, "pull-remain-strict"), "wake-up uses > send_bytes where handle_write flushes at >= send_bytes: exactly send_bytes pending is never flushed", f.loc(owner))
+        elif not miss and not bad:
+            ctx.r.ok(rid, "remaining-output test agrees with handle_write's >= send_bytes", f.loc(owner))
         return
     ctx.r.violation(rid, key_of(f, None, "no-pull-after-flush"), "no wake-up after the flush attempt in write_soon", f.loc(fl.ast))
 
